@@ -29,6 +29,10 @@ MUTANTS = [
     ("C02", "processor/variable_processor.py", "NodeValue(str(total), val_)", "NodeValue(str(total + 1), val_)"),
     ("C02", "processor/variable_processor.py", '    prefix = "_" + name\n', '    prefix = "__" + name\n'),
     ("C02", "processor/variable_processor.py", "        return val[len(prefix):]\n", "        return val[len(name):]\n"),
+    ("C07", "processor/variable_processor.py", "node.original_name), process_children=False)", "node.original_name), process_children=True)"),
+    ("C07", "processor/variable_processor.py", "    identity_hash_id = str(id(node.value))\n", "    identity_hash_id = str(id(node))\n"),
+    ("C07", "processor/variable_processor.py", "    var_collector.append_variable(var_id, variable)\n", ""),
+    ("C07", "processor/variable_processor.py", "    variable = Variable(str(variable_type.__name__), variable_value_str, identity_hash_id, [], truncated)", "    variable = Variable(str(variable_type.__name__), variable_value_str, var_id, [], truncated)"),
     ("C02", "processor/variable_processor.py", "    if var_name.startswith(\"_\"):\n        return ['protected']", "    if var_name.startswith(\"_\"):\n        return ['private']"),
     ("C10", "processor/context/action_context.py", "        if isinstance(result, BaseException):\n", "        if isinstance(result, BaseException) and False:\n"),
     ("C10", "utils.py", '("yes", "true", "t", "1", "y")', '("yes", "true", "t", "1", "y", "on")'),
@@ -65,7 +69,7 @@ FULL = "--full" in sys.argv          # run the whole quick check of the mutant's
 sel = [a for a in sys.argv[1:] if a != "--full"]
 if sel:
     MUTANTS = [m for m in MUTANTS if m[0] in sel]
-ALL = ["C02", "C03", "C04", "C05", "C10", "C11", "C12", "C13", "C14", "C15", "C17", "C18", "C19", "C20"]
+ALL = ["C02", "C03", "C04", "C05", "C07", "C10", "C11", "C12", "C13", "C14", "C15", "C17", "C18", "C19", "C20"]
 
 
 def verdicts():
